@@ -104,6 +104,18 @@ theorem C40_counterexample_onebit : ¬ C40_full := by
 
 example : oneBitNonBool [1, 7] [2, 5] = true := by decide
 
+/-- the one-byte variants `packByte` / `unpackByte` (one decimal digit per field, widths 1..8,
+total ≤ 8): the same round trip, no padding field -/
+theorem C40_unpackByte_packByte (fmt : List Nat) (fields : List Int) (boolean : Bool) (b : Nat)
+    (h : packByte fmt fields = .ok b) :
+    b < 256 ∧ unpackByte fmt (b : Int) boolean = .ok (specFields boolean (widths fmt) fields) :=
+  unpackByte_packByte fmt fields boolean b h
+
+example : packByte [1, 3, 2, 2] [1, 4, 0, 3] = .ok 0xc3 ∧
+    unpackByte [1, 3, 2, 2] 0xc3 true = .ok [.bool true, .int 4, .int 0, .int 3] ∧
+    packByte [4, 5] [1, 1] = .error .valueError ∧ packByte [9] [1] = .error .valueError := by
+  decide +kernel
+
 /-! ## 2. packing into a buffer -/
 
 /-- **Frame.**  `packifyInto` zero-extends `b` to `offset + size` when it is shorter, then
